@@ -55,8 +55,16 @@ def findIdx? {α : Type} (p : α → Bool) (l : List α) : Option Nat :=
 
 /- ## C04.index -/
 
-def handleIndex (script outcome dump ranks obs enum : String) : Verdict :=
-  if outcome == "malformed" then ⟨.pass, ["skip-malformed"], ""⟩ else
+def handleIndex (script outcome dump ranks obs enum after2 : String) : Verdict :=
+  if outcome == "malformed" then
+    -- `dump` = the heap problems, `ranks` = the outcome of every step of the edit script
+    match parseStrList ranks with
+    | some log =>
+      if log.any (fun r => r != "ok" && r != "skip" && r != "nopath") then
+        ⟨.pass, ["skip-malformed-after-failed-edit"], ""⟩     -- an edit that returned an error: C03's business
+      else ⟨.oracle, ["malformed-after-successful-edits"], "the heap is malformed after edits that all succeeded: " ++ dump⟩
+    | none => bad "C04.index malformed log"
+  else
   match T.undump dump, parseStrList script with
   | some t, some sc =>
     let tips := t.tipNames
@@ -64,26 +72,45 @@ def handleIndex (script outcome dump ranks obs enum : String) : Verdict :=
     let edited := sc.any fun s => s != "reinit" && s != "internal"
     let stale := sc.head? == some "reinit" && edited
     let inner := t.splits.any fun s => 2 ≤ specTopoDepth tips s.below
-    let tags := treeTags t ++ tagIf uniq "uniq" ++ tagIf edited "edited" ++ tagIf stale "stale-index-before-edit" ++ tagIf (sc.getLast? == some "internal") "ReinitInternalIndexes" ++
+    let internal := sc.getLast? == some "internal"
+    let tags := treeTags t ++ tagIf uniq "uniq" ++ tagIf edited "edited" ++ tagIf stale "stale-index-before-edit" ++ tagIf internal "ReinitInternalIndexes" ++
       tagIf (uniq && inner) "nontrivial" ++ tagIf (tips.length ≥ 3) "ge3tips"
-    let model := reinitLit2 fnv1a t
+    -- the model: ReinitIndexes, or ReinitInternalIndexes with the tip index of the earlier ReinitIndexes
+    -- (the scripts that end with it do not touch the tips: that index is the sorted names)
+    let model := if internal then reinitInternalLit fnv1a (sortNames tips) t else reinitLit3 fnv1a t
     if !uniq || tips.length == 0 then
       -- outside the property (names not unique / no tip): only the tie is looked at
       match model, outcome with
       | .err _, "err" => ⟨.pass, "refused" :: tags, ""⟩
       | _, _ => ⟨.tie, tags, "model and implementation disagree on refusing the tree: " ++ outcome⟩
     else if outcome != "ok" then ⟨.oracle, tags, "ReinitIndexes failed on a tree with unique tip names: " ++ outcome⟩
+    else if after2 != dump then ⟨.oracle, tags, "re-indexing changed the tree itself"⟩
     else
-    match parseStrList ranks, (splitTerm ";" obs).mapM parseObs with
-    | some rk, some os =>
+    match parseStrList ranks, (splitTerm ";" obs).mapM parseObs, (splitTerm ";" enum).mapM parseIntList with
+    | some rk, some os, some [eAll, eInt, eTip] =>
       let sp := t.splits
-      if enum != "111" then ⟨.oracle, tags, "Edges/InternalEdges/TipEdges are not the pre-order list and its sub-lists by kind: " ++ enum⟩
+      let idxs := (List.range sp.length).map fun (i : Nat) => (i : Int)
+      let kinds := sp.map (·.tip)
+      let expInt := (idxs.zip kinds).filterMap fun (i, tp) => if tp then none else some i
+      let expTip := (idxs.zip kinds).filterMap fun (i, tp) => if tp then some i else none
+      if eAll != idxs then ⟨.oracle, tags, "Edges() is not the list of the branches of the tree in pre-order"⟩
+      else if eInt != expInt then ⟨.oracle, tags, "InternalEdges() is not the list of the branches above inner nodes"⟩
+      else if eTip != expTip then ⟨.oracle, tags, "TipEdges() is not the list of the branches above tips"⟩
       else if rk != sortNames tips then ⟨.oracle, tags, "tip ranks are not the sorted tip names"⟩
       else if os.length != sp.length then ⟨.bad, tags, "number of branches"⟩
       else
         match findIdx? (fun (so : SplitE × Obs) => !(branchOK tips so.1.below so.2.bits so.2.nl so.2.nr so.2.td)) (sp.zip os) with
         | some i => ⟨.oracle, tags, "branch " ++ toString i ++ ": recorded bitset/counts/depth differ from the split of the branch"⟩
         | none =>
+          -- equal splits inside the one tree (both root branches of a rooted tree, the two sides of a
+          -- single-child node) must have the same hash code
+          let vs := (sp.map fun s => memVec tips s.below).zip (os.map (·.hc))
+          let small := tips.length ≤ 80
+          let clash := if small then vs.any fun (va, ha) => vs.any fun (vb, hb) => sameSplitV va vb && ha != hb else false
+          let twins := small && ((List.range vs.length).zip vs).any fun (i, (va, _)) =>
+            ((List.range vs.length).zip vs).any fun (j, (vb, _)) => i != j && sameSplitV va vb
+          let tags := tags ++ tagIf twins "equal-splits-in-one-tree"
+          if clash then ⟨.oracle, tags, "two branches of the tree define the same split and have different hash codes"⟩ else
           match model with
           | .err m => ⟨.tie, tags, "model refuses: " ++ m⟩
           | .ok (ms, mi) =>
@@ -93,9 +120,9 @@ def handleIndex (script outcome dump ranks obs enum : String) : Verdict :=
                   mo.1.topoDepth.map (fun (x : Nat) => (x : Int)) == mo.2.td && mo.1.hashCode == mo.2.hc)) (mi.zip os) with
             | some i => ⟨.tie, tags, "branch " ++ toString i ++ ": model index differs (hash code or fields)"⟩
             | none => if mi.length != os.length then ⟨.tie, tags, "model branch count"⟩ else ⟨.pass, tags, ""⟩
-    | _, _ =>
+    | _, _, _ =>
       -- a bitset of another width, a nil bitset, unusable ranks: the observation itself is wrong
-      ⟨.oracle, tags, "unreadable index observation (bitset width / ranks): " ++ String.ofList (ranks.toList.take 40)⟩
+      ⟨.oracle, tags, "unreadable index observation (bitset width / ranks / enumerations): " ++ String.ofList (ranks.toList.take 40)⟩
   | _, _ => bad "C04.index fields"
 
 /- ## C04.pairs -/
@@ -122,7 +149,7 @@ def handlePairs (d1 d2 outcome hc1 hc2 heq sb fe ce : String) : Verdict :=
       | none => "err;" | some (a, b) => toString a ++ "," ++ toString b ++ ";"
     if uniq && !sameTaxa && tips1.length != 0 && outcome == "ok" then
       -- other taxa: `CommonEdges` must refuse; the rest is meaningless
-      let mce := match reinitLit2 fnv1a t1, reinitLit2 fnv1a t2 with
+      let mce := match reinitLit3 fnv1a t1, reinitLit3 fnv1a t2 with
         | .ok (_, m1), .ok (_, m2) =>
           String.join ([false, true].map fun te => showCE (commonEdges tips1 tips2 (m1.zip (t1.splits.map (·.tip))) (m2.zip (t2.splits.map (·.tip))) te))
         | _, _ => "?"
@@ -154,7 +181,7 @@ def handlePairs (d1 d2 outcome hc1 hc2 heq sb fe ce : String) : Verdict :=
         if fe != feSpec then ⟨.oracle, tags, "FindEdge differs from 'same split on a branch of the same kind': " ++ fe ++ " expected " ++ feSpec⟩ else
         let ceSpec := String.join ([false, true].map fun te => showCE (some (specCommon tips1 te t1.splits t2.splits)))
         if ce != ceSpec then ⟨.oracle, tags, "CommonEdges differs from the count of shared splits: " ++ ce ++ " expected " ++ ceSpec⟩ else
-        match reinitLit2 fnv1a t1, reinitLit2 fnv1a t2 with
+        match reinitLit3 fnv1a t1, reinitLit3 fnv1a t2 with
         | .ok (_, m1), .ok (_, m2) =>
           let ceModel := String.join ([false, true].map fun te =>
             showCE (commonEdges tips1 tips2 (m1.zip (t1.splits.map (·.tip))) (m2.zip (t2.splits.map (·.tip))) te))
@@ -318,10 +345,27 @@ def parseEIOut (s : String) : Option EIOut :=
       | some c, some l => some (.val (some ⟨c, l⟩))
       | _, _ => none
     | _ => none
-  | 'E' :: r => (String.ofList r).toNat?.map .nedges
+  | 'E' :: r => (((String.ofList r).splitOn ":").head?.bind (·.toNat?)).map .nedges
   | ['e', 'r', 'r'] => some .err
   | 'P' :: _ => some .panic
   | _ => none
+
+/-- what `EdgeIndex.Edges` must return at every `edges` op of a script, from the plain-map state:
+    the kept entries as sorted `tree.branch_count_length` strings (key = the branch first inserted) -/
+def specEdgesContents (eqv : Nat × Nat → Nat × Nat → Bool) :
+    List (EIOp (Nat × Nat)) → List ((Nat × Nat) × EIInfo) → List (List String)
+  | [], _ => []
+  | .add k len :: r, a =>
+    specEdgesContents eqv r (match Assoc.get eqv k a with
+      | none => Assoc.put eqv k ⟨1, len⟩ a
+      | some v => Assoc.put eqv k ⟨v.count + 1, v.len + len⟩ a)
+  | .putv k c l :: r, a => specEdgesContents eqv r (Assoc.put eqv k ⟨c, l⟩ a)
+  | .value _ :: r, a => specEdgesContents eqv r a
+  | .edges mn mx :: r, a =>
+    sortStrings ((a.filter fun kv => eiKeep mn mx kv.2).map fun kv =>
+      toString kv.1.1 ++ "." ++ toString kv.1.2 ++ "_" ++ toString kv.2.count ++ "_" ++ showRat kv.2.len) ::
+      specEdgesContents eqv r a
+  | .unindexed :: r, a => specEdgesContents eqv r a
 
 def mapKey {κ κ' : Type} (f : κ → κ') : EIOp κ → EIOp κ'
   | .add k l => .add (f k) l
@@ -350,7 +394,7 @@ def handleEI (dumps caps lfs opss outcome repliess : String) : Verdict :=
       let eqvS (a b : Nat × Nat) : Bool := sameSplit tips (below a) (below b)
       let spec := Assoc.runEI eqvS ops []
       -- model: keys are the model's own index records
-      let idxs := ts.map fun t => match reinitLit2 fnv1a t with | .ok (_, l) => l | .err _ => []
+      let idxs := ts.map fun t => match reinitLit3 fnv1a t with | .ok (_, l) => l | .err _ => []
       let dflt : EdgeIdx := ⟨[], 0, 0, 0, 0⟩
       let keyOf (k : Nat × Nat) : EdgeIdx := ((idxs.getD k.1 [])[k.2]?).getD dflt
       let mops := ops.map (mapKey keyOf)
@@ -360,7 +404,13 @@ def handleEI (dumps caps lfs opss outcome repliess : String) : Verdict :=
       let twoPres := ops.any fun | .value k => (ops.any fun | .add k' _ => k != k' && eqvS k k' | _ => false) | _ => false
       let tags := ht ++ tagIf twoPres "two-presentations" ++ tagIf (ts.length ≥ 2) "several-trees" ++
         tagIf (twoPres && ht.contains "rehash") "nontrivial"
+      -- the contents of every `Edges` reply (read by reflection in the harness)
+      let contents := replies.filterMap fun r =>
+        if r.startsWith "E" then some (match r.splitOn ":" with
+          | [_, c] => sortStrings ((c.splitOn "|").filter (· != ""))
+          | _ => []) else none
       if spec != outs then ⟨.oracle, tags, "EdgeIndex replies differ from a plain map keyed by the split"⟩
+      else if contents != specEdgesContents eqvS ops [] then ⟨.oracle, tags, "EdgeIndex.Edges does not return the entries of the plain map within the count bounds"⟩
       else if EI.run EdgeIdx.hashCode EdgeIdx.equals (policyOf lf) mops (HM.new cap) != outs then ⟨.tie, tags, "model EdgeIndex replies differ"⟩
       else ⟨.pass, tags, ""⟩
     | _, _ => bad "C04.ei ops/replies"
@@ -403,7 +453,7 @@ def handleQuartet (qs q2s caps lfs hs1 hs2 c11 c12 e11 e12 repliess : String) : 
       ⟨.oracle, tags, "HashEquals differs from 'same four taxa'"⟩
     else if h1.length != 24 || h2.length != 24 then bad "C04.quartet hashes"
     else if !(h1.all (· == h1.getD 0 0)) || !(h2.all (· == h2.getD 0 0)) then
-      ⟨.oracle, tags, "class=QuartetHashPresentation presentations of one quartet (HashEquals true) have different hash codes"⟩
+      ⟨.oracle, tags, "presentations of one quartet (HashEquals true) have different hash codes"⟩
     else if same && h1.getD 0 0 != h2.getD 0 1 then ⟨.oracle, tags, "same taxa, different hash codes"⟩
     else
       let expect : List String :=
@@ -465,10 +515,12 @@ def handleQuartets (dump sp wi outcome ql ix : String) : Verdict :=
     | none => bad "C04.quartets list"
     | some qs =>
       let model := quartets rank specific t
-      let tags := tags0 ++ tagIf (qs.length > 0) "nontrivial" ++ tagIf (model == qs) "order-exact" ++ tagIf (qs.length != (qs.map Quartet.canon).eraseDups.length) "repeated-quartet"
+      let tags := tags0 ++ tagIf (qs.length > 0) "nontrivial" ++ tagIf (model == qs) "order-exact" ++
+        tagIf (sortQs model == sortQs qs) "orientation-exact" ++ tagIf (qs.length != (qs.map Quartet.canon).eraseDups.length) "repeated-quartet"
       -- oracle: the quartets of the tree, as a multiset (a root that is a tip: only the tie — the code
       -- enumerates nothing there)
-      if !roottip && sortQs qs != sortQs (specQuartets rank specific t) then
+      -- (`Quartets()` is not in the property: judged as a multiset of quartets, whichever pair comes first)
+      if !roottip && sortQsU qs != sortQsU (specQuartets rank specific t) then
         ⟨.oracle, tags, "Quartets does not deliver the quartets of the tree (" ++ toString qs.length ++ " delivered, " ++
           toString (specQuartets rank specific t).length ++ " expected)"⟩
       else
@@ -487,12 +539,12 @@ def handleQuartets (dump sp wi outcome ql ix : String) : Verdict :=
       match ixVerdict with
       | some v => v
       | none =>
-        if sortQs model != sortQs qs then ⟨.tie, tags, "model quartets differ (" ++ toString model.length ++ ")"⟩
+        if sortQsU model != sortQsU qs then ⟨.tie, tags, "model quartets differ (" ++ toString model.length ++ ")"⟩
         else ⟨.pass, tags, ""⟩
 
 def handle (op : String) (f : List String) : Verdict :=
   match op, f with
-  | "index", [_, script, outcome, dump, ranks, obs, enum] => handleIndex script outcome dump ranks obs enum
+  | "index", [_, script, outcome, dump, ranks, obs, enum, after2] => handleIndex script outcome dump ranks obs enum after2
   | "pairs", [d1, d2, outcome, hc1, hc2, heq, sb, fe, ce] => handlePairs d1 d2 outcome hc1 hc2 heq sb fe ce
   | "hm", [cap, lf, mode, ops, replies] => handleHM cap lf mode ops replies
   | "ei", [dumps, cap, lf, ops, outcome, replies] => handleEI dumps cap lf ops outcome replies
